@@ -1,6 +1,7 @@
 import Utv.Model.C13
 import Utv.Lemmas.C13Json
 import Utv.Lemmas.C13Wf
+import Utv.Lemmas.C13Val
 /-!
 C13 — the generated JSON Schema is valid and describes what the parser does.
 
@@ -351,5 +352,435 @@ theorem C13_wf (cfg : Cfg) (t : Ty) (h : wfTy t = true) : wf (generate cfg t) = 
   unfold generate
   rw [wf_obj]
   exact wf_gen cfg t h
+
+/-! ## Part 3 — every value the parser publishes validates against the output document -/
+
+section outputs
+variable (R : Rx) (L : RxLaws R) (C : Ctx) (hC : C.search = R.search) (gm : Option Char)
+include L hC
+
+mutual
+theorem val_gen : (t : Ty) → (r : PV) → wfTy t = true → conforms R t r = true → safeDecimals r = true →
+    oneOfOk C ⟨true, gm⟩ t r = true → (all : Obj) → SibAgree all (gen ⟨true, gm⟩ t) →
+    validateKws C all (gen ⟨true, gm⟩ t) (encode r) = true
+  | .any, _, _, _, _, _, all, _ => by rw [gen.eq_def]; exact validateKws_nil ..
+  | .plain p, r, _, hc, hs, _, all, _ => by
+    rw [conforms.eq_def] at hc
+    rw [gen.eq_def]
+    unfold plainSchema
+    rw [validateKws_append, validateKws_cons, validateKws_nil, val_type C all _ _ (typeIs_plain p r hc hs),
+      val_optStr C all "format" _ _ (by decide)]
+    rfl
+  | .scalar p m cs, r, hw, hc, hs, _, all, _ => by
+    rw [wfTy.eq_def] at hw
+    rw [conforms.eq_def] at hc
+    simp only [Bool.and_eq_true] at hw hc
+    rw [gen.eq_def]
+    simp only [validateKws_append]
+    rw [val_ruleHead C all p m _ hw.2 (typeIs_plain p r hc.1 hs),
+      val_scalar_cons C R L hC all p m cs r hw.1 hw.2 hc.1 hs hc.2]
+    rfl
+  | .seq p m cs item, r, hw, hc, hs, h1, all, _ => by
+    rw [wfTy.eq_def] at hw
+    rw [conforms.eq_def] at hc
+    rw [oneOfOk.eq_def] at h1
+    simp only [Bool.and_eq_true] at hw hc
+    cases hx : elemsOf r with
+    | none => simp [hx] at hc
+    | some xs =>
+      simp only [hx] at hc h1
+      have he := encode_elems r xs hx
+      have hparr := seqPrim_array p hw.1.1.1
+      rw [gen.eq_def]
+      simp only [validateKws_append, validateKws_cons, validateKws_nil, Bool.and_true]
+      rw [val_ruleHead C all p m _ (by rw [hparr]; exact hw.1.2) (by rw [hparr, he]; rfl),
+        val_consSchema C R all _ arrayCons cs r hw.1.1.2 hc.1.2 (by
+          intro c hn hsc
+          rw [rulePrimitive_fixed p m "array" hparr rfl hw.1.2]
+          exact val_array C R all c hn r xs hx hsc)]
+      simp only [Bool.true_and]
+      rw [he]
+      simp only [validateEntry, beq_self_eq_true, if_true]
+      apply all_drop_of_all
+      rw [List.all_eq_true]
+      intro j hj
+      obtain ⟨x, hxm, rfl⟩ := mem_encodeList hj
+      rw [validate_obj]
+      exact val_gen item x hw.2 (List.all_eq_true.mp hc.2 x hxm) (safe_elems r xs hx hs x hxm)
+        (List.all_eq_true.mp h1 x hxm) _ (SibAgree.refl _)
+  | .tup m cs items, r, hw, hc, hs, h1, all, _ => by
+    rw [wfTy.eq_def] at hw
+    rw [conforms.eq_def] at hc
+    rw [oneOfOk.eq_def] at h1
+    simp only [Bool.and_eq_true] at hw hc
+    cases r <;> simp at hc
+    rename_i xs
+    have hx : elemsOf (.tuple xs) = some xs := rfl
+    have he := encode_elems (.tuple xs) xs hx
+    rw [gen.eq_def]
+    simp only [validateKws_append, validateKws_cons, validateKws_nil, Bool.and_true]
+    rw [val_ruleHead C all .tuple m _ hw.1.1.2 (by rw [he]; rfl),
+      val_consSchema C R all _ arrayCons cs _ hw.1.1.1 hc.1 (by
+        intro c hn hsc
+        rw [rulePrimitive_fixed .tuple m "array" rfl rfl hw.1.1.2]
+        exact val_array C R all c hn _ xs hx hsc)]
+    simp only [Bool.true_and]
+    rw [he]
+    have hsl : safeList xs = true := by rw [safeDecimals.eq_def] at hs; exact hs
+    have := val_zip items xs hw.2 hc.2 hsl h1
+    simp [validateEntry, this]
+  | .map m cs key val, r, hw, hc, hs, h1, all, _ => by
+    rw [wfTy.eq_def] at hw
+    rw [conforms.eq_def] at hc
+    rw [oneOfOk.eq_def] at h1
+    simp only [Bool.and_eq_true] at hw hc
+    cases r <;> simp at hc
+    rename_i kvs
+    have he : encode (.dict kvs) = .obj (encodeDict kvs) := by rw [encode.eq_def]
+    rw [gen.eq_def]
+    simp only [validateKws_append, validateKws_cons, validateKws_nil, Bool.and_true]
+    simp only at h1
+    rw [val_ruleHead C all .dict m _ hw.1.1.2 (by rw [he]; rfl),
+      val_consSchema C R all _ objectCons cs _ hw.1.1.1 hc.1 (by
+        intro c hn hsc
+        rw [rulePrimitive_fixed .dict m "object" rfl rfl hw.1.1.2]
+        exact val_object C R all c hn kvs hsc)]
+    simp only [Bool.true_and]
+    rw [he]
+    have hsd : safeDict kvs = true := by rw [safeDecimals.eq_def] at hs; exact hs
+    simp only [validateEntry, validatePatProps.eq_def, Bool.and_true]
+    simp only [(by decide : ("patternProperties" == "items") = false), (by decide : ("patternProperties" == "prefixItems") = false),
+      (by decide : ("patternProperties" == "contains") = false), (by decide : ("patternProperties" == "properties") = false),
+      beq_self_eq_true, Bool.false_eq_true, if_false, if_true]
+    rw [List.all_eq_true]
+    intro mem hmem
+    obtain ⟨kv, hkv, rfl⟩ := mem_encodeDict hmem
+    have hcv := hc.2 kv.1 kv.2 hkv
+    have h1v := List.all_eq_true.mp h1 kv hkv
+    rw [validate_obj, val_gen val kv.2 hw.2 hcv.2 (safeDict_mem hsd kv hkv) h1v _ (SibAgree.refl _)]
+    simp
+  | .enum e, r, hw, hc, hs, _, all, _ => by
+    rw [wfTy.eq_def] at hw
+    rw [gen.eq_def]
+    exact val_enum C R all e r hw hc hs
+  | .logic op ts, r, hw, hc, hs, h1, all, _ => by
+    rw [wfTy.eq_def] at hw
+    rw [conforms.eq_def] at hc
+    rw [oneOfOk.eq_def] at h1
+    simp only [Bool.and_eq_true] at hw h1
+    rw [gen.eq_def, validateKws_cons, validateKws_nil, Bool.and_true]
+    cases op with
+    | allOf =>
+      simp only at hc
+      simp [opName, validateEntry, val_all ts r hw.2 hc hs h1.2]
+    | anyOf =>
+      simp only at hc
+      simp [opName, validateEntry, val_any ts r hw.2 hc hs h1.2]
+    | oneOf =>
+      simp only at hc
+      have hany := val_any ts r hw.2 hc hs h1.2
+      have hpos := count_pos_of_any C _ _ hany
+      have hle : validateCount C (genList ⟨true, gm⟩ ts) (encode r) ≤ 1 := by simpa using h1.1
+      have : validateCount C (genList ⟨true, gm⟩ ts) (encode r) = 1 := by omega
+      simp [opName, validateEntry, this]
+  | .data c fields addTy, r, hw, hc, hs, h1, all, hall => by
+    rw [wfTy.eq_def] at hw
+    rw [conforms.eq_def] at hc
+    rw [oneOfOk.eq_def] at h1
+    simp only [Bool.and_eq_true] at hw
+    cases r <;> simp only [Bool.false_eq_true] at hc
+    rename_i kvs
+    simp only [Bool.and_eq_true] at hc h1
+    obtain ⟨⟨⟨⟨hpres, hnoout⟩, hdeps⟩, hflds⟩, hadd⟩ := hc
+    have he : encode (.inst kvs) = .obj (encodeInst kvs) := by rw [encode.eq_def]
+    have hsi : safeInst kvs = true := by rw [safeDecimals.eq_def] at hs; exact hs
+    have hgen := gen.eq_def ⟨true, gm⟩ (.data c fields addTy)
+    simp only at hgen
+    rw [hgen]
+    simp only [validateKws_append, validateKws_cons, validateKws_nil, Bool.and_true, Bool.and_eq_true]
+    rw [he]
+    have hO : effOpts ⟨true, gm⟩ c = c.opts := rfl
+    refine ⟨⟨⟨⟨⟨?_, ?_⟩, ?_⟩, ?_⟩, ?_⟩, ?_⟩
+    · exact val_type C all "object" _ rfl
+    · -- properties
+      have := val_fields (effOpts ⟨true, gm⟩ c) fields kvs hw.1.2 hflds hsi h1.1
+      simp [validateEntry, this]
+    · -- required
+      unfold reqSeg
+      split
+      · exact validateKws_nil ..
+      · rw [validateKws_cons, validateKws_nil, Bool.and_true]
+        simp only [validateEntry, checkSimple, kRequired, strArr,
+          (by decide : ("required" == "items") = false), (by decide : ("required" == "prefixItems") = false),
+          (by decide : ("required" == "contains") = false), (by decide : ("required" == "properties") = false),
+          (by decide : ("required" == "patternProperties") = false), (by decide : ("required" == "additionalProperties") = false),
+          (by decide : ("required" == "allOf") = false), (by decide : ("required" == "anyOf") = false),
+          (by decide : ("required" == "oneOf") = false), (by decide : ("required" == "not") = false),
+          (by decide : ("required" == "$ref") = false), (by decide : ("required" == "type") = false),
+          (by decide : ("required" == "enum") = false), (by decide : ("required" == "const") = false),
+          (by decide : ("required" == "multipleOf") = false), (by decide : ("required" == "maximum") = false),
+          (by decide : ("required" == "exclusiveMaximum") = false), (by decide : ("required" == "minimum") = false),
+          (by decide : ("required" == "exclusiveMinimum") = false), (by decide : ("required" == "maxLength") = false),
+          (by decide : ("required" == "minLength") = false), (by decide : ("required" == "pattern") = false),
+          (by decide : ("required" == "maxItems") = false), (by decide : ("required" == "minItems") = false),
+          (by decide : ("required" == "uniqueItems") = false), (by decide : ("required" == "maxProperties") = false),
+          (by decide : ("required" == "minProperties") = false), beq_self_eq_true, Bool.false_eq_true, if_false, if_true]
+        apply requiredOk_strs
+        intro n hn
+        unfold requiredNames at hn
+        rw [List.mem_map] at hn
+        obtain ⟨f, hf, rfl⟩ := hn
+        rw [List.mem_filter] at hf
+        have hp := present_of_listed gm _ f hf.2
+        rw [hasKey_encodeInst]
+        rw [List.mem_map] at hf
+        obtain ⟨⟨g, hg, rfl⟩, _⟩ := hf
+        have := List.all_eq_true.mp hpres g hg
+        rw [hO] at hp
+        simpa [hp] using this
+    · -- dependentRequired
+      unfold depSeg
+      split
+      · exact validateKws_nil ..
+      · rw [validateKws_cons, validateKws_nil, Bool.and_true]
+        have hk : validateEntry C all "dependentRequired" (.obj (dependentRequired ⟨true, gm⟩ (effOpts ⟨true, gm⟩ c) (fields.map Fld.meta)))
+            (.obj (encodeInst kvs)) =
+            (dependentRequired ⟨true, gm⟩ (effOpts ⟨true, gm⟩ c) (fields.map Fld.meta)).all (depOk (encodeInst kvs)) := by
+          simp [validateEntry, checkSimple, kDependentRequired]
+        rw [hk, List.all_eq_true]
+        intro d hd
+        unfold dependentRequired at hd
+        rw [List.mem_map] at hd
+        obtain ⟨f, hf, rfl⟩ := hd
+        rw [List.mem_filter, List.mem_map] at hf
+        obtain ⟨⟨g, hg, rfl⟩, _⟩ := hf
+        unfold depOk
+        simp only [strArr]
+        by_cases hk' : hasKey g.meta.name (encodeInst kvs) = true
+        · have hd' := List.all_eq_true.mp hdeps g hg
+          rw [hasKey_encodeInst] at hk'
+          simp only [Bool.or_eq_true, Option.isNone_iff_eq_none] at hd'
+          rcases hd' with hd' | hd'
+          · rw [hd'] at hk'; cases hk'
+          · simp only [hasKey_encodeInst, hk', Bool.not_true, Bool.false_or]
+            apply requiredOk_strs
+            intro n hn
+            rw [hasKey_encodeInst]
+            exact List.all_eq_true.mp hd' n (mem_sortStrings hn)
+        · simp [hk']
+    · -- additionalProperties
+      have hdecl : ∀ kv ∈ kvs, (fieldNames fields).contains kv.1 = true → isDeclared C all kv.1 = true := by
+        intro kv hkv hfn
+        apply isDeclared_field C ⟨true, gm⟩ c fields addTy all hall
+        unfold fieldNames at hfn
+        rw [List.contains_iff_mem, List.mem_map] at hfn
+        obtain ⟨g, hg, hgn⟩ := hfn
+        refine ⟨g, hg, hgn, ?_⟩
+        have hno := List.all_eq_true.mp hnoout g hg
+        have hsome := lookup_isSome_of_mem kv.1 kv.2 kvs hkv
+        rw [← hgn] at hsome
+        unfold fieldVisible
+        simp only [if_true, hO]
+        rw [← isNoOutput_eq_always]
+        cases hn : isNoOutput g.meta c.opts with
+        | false => rfl
+        | true =>
+          simp only [hn, Bool.not_true, Bool.false_or] at hno
+          rw [Option.isNone_iff_eq_none] at hno
+          rw [hno] at hsome; cases hsome
+      unfold addSeg
+      rw [hO]
+      cases hadd' : c.opts.addition with
+      | drop => exact validateKws_nil ..
+      | reject =>
+        rw [validateKws_cons, validateKws_nil, Bool.and_true]
+        simp only [validateEntry, (by decide : ("additionalProperties" == "items") = false),
+          (by decide : ("additionalProperties" == "prefixItems") = false), (by decide : ("additionalProperties" == "contains") = false),
+          (by decide : ("additionalProperties" == "properties") = false), (by decide : ("additionalProperties" == "patternProperties") = false),
+          beq_self_eq_true, Bool.false_eq_true, if_false, if_true]
+        rw [List.all_eq_true]
+        intro mem hmem
+        obtain ⟨kv, hkv, rfl⟩ := mem_encodeInst hmem
+        have := List.all_eq_true.mp hadd kv hkv
+        simp only [hadd', Bool.or_false] at this
+        simp [hdecl kv hkv this]
+      | keep =>
+        rw [validateKws_cons, validateKws_nil, Bool.and_true]
+        simp only [validateEntry, (by decide : ("additionalProperties" == "items") = false),
+          (by decide : ("additionalProperties" == "prefixItems") = false), (by decide : ("additionalProperties" == "contains") = false),
+          (by decide : ("additionalProperties" == "properties") = false), (by decide : ("additionalProperties" == "patternProperties") = false),
+          beq_self_eq_true, Bool.false_eq_true, if_false, if_true]
+        rw [List.all_eq_true]
+        intro mem _
+        rw [validate.eq_def]
+        simp
+      | convert =>
+        rw [validateKws_cons, validateKws_nil, Bool.and_true]
+        simp only [validateEntry, (by decide : ("additionalProperties" == "items") = false),
+          (by decide : ("additionalProperties" == "prefixItems") = false), (by decide : ("additionalProperties" == "contains") = false),
+          (by decide : ("additionalProperties" == "properties") = false), (by decide : ("additionalProperties" == "patternProperties") = false),
+          beq_self_eq_true, Bool.false_eq_true, if_false, if_true]
+        rw [List.all_eq_true]
+        intro mem hmem
+        obtain ⟨kv, hkv, rfl⟩ := mem_encodeInst hmem
+        have hpol := List.all_eq_true.mp hadd kv hkv
+        have h1a := List.all_eq_true.mp h1.2 kv hkv
+        simp only [hadd', Bool.or_eq_true] at hpol
+        simp only [Bool.or_eq_true] at h1a ⊢
+        by_cases hfn : (fieldNames fields).contains kv.1 = true
+        · left; exact hdecl kv hkv hfn
+        · right
+          have hca : conforms R addTy kv.2 = true := by
+            rcases hpol with h | h
+            · exact absurd h hfn
+            · exact h
+          have h1b : oneOfOk C ⟨true, gm⟩ addTy kv.2 = true := by
+            rcases h1a with h | h
+            · exact absurd h hfn
+            · exact h
+          rw [validate_obj]
+          exact val_gen addTy kv.2 hw.2 hca (safeInst_mem hsi kv hkv) h1b _ (SibAgree.refl _)
+    · -- x-annotation
+      apply validateKws_annotations
+      intro e hemem
+      unfold classAnnotations at hemem
+      cases hm : (effOpts ⟨true, gm⟩ c).mode <;> simp [hm] at hemem
+      subst hemem; rfl
+theorem val_zip : (ts : List Ty) → (xs : List PV) → wfTys ts = true → conformsZip R ts xs = true → safeList xs = true →
+    oneOfOkZip C ⟨true, gm⟩ ts xs = true → validatePrefix C (genList ⟨true, gm⟩ ts) (encodeList xs) = true
+  | [], _, _, _, _, _ => by rw [genList.eq_def, validatePrefix.eq_def]
+  | t :: rest, xs, hw, hc, hs, h1 => by
+    rw [wfTys.eq_def] at hw
+    rw [conformsZip.eq_def] at hc
+    rw [oneOfOkZip.eq_def] at h1
+    simp only [Bool.and_eq_true] at hw
+    cases xs with
+    | nil => simp at hc
+    | cons x xs' =>
+      simp only [Bool.and_eq_true] at hc h1
+      rw [safeList.eq_def] at hs
+      simp only [Bool.and_eq_true] at hs
+      rw [genList.eq_def, encodeList.eq_def, validatePrefix.eq_def]
+      simp only [validate_obj, Bool.and_eq_true]
+      exact ⟨val_gen t x hw.1 hc.1 hs.1 h1.1 _ (SibAgree.refl _), val_zip rest xs' hw.2 hc.2 hs.2 h1.2⟩
+theorem val_all : (ts : List Ty) → (r : PV) → wfTys ts = true → conformsAll R ts r = true → safeDecimals r = true →
+    oneOfOkAll C ⟨true, gm⟩ ts r = true → validateAll C (genList ⟨true, gm⟩ ts) (encode r) = true
+  | [], _, _, _, _, _ => by rw [genList.eq_def, validateAll.eq_def]
+  | t :: rest, r, hw, hc, hs, h1 => by
+    rw [wfTys.eq_def] at hw
+    rw [conformsAll.eq_def] at hc
+    rw [oneOfOkAll.eq_def] at h1
+    simp only [Bool.and_eq_true] at hw hc h1
+    rw [genList.eq_def, validateAll.eq_def]
+    simp only [validate_obj, Bool.and_eq_true]
+    exact ⟨val_gen t r hw.1 hc.1 hs h1.1 _ (SibAgree.refl _), val_all rest r hw.2 hc.2 hs h1.2⟩
+theorem val_any : (ts : List Ty) → (r : PV) → wfTys ts = true → conformsAny R ts r = true → safeDecimals r = true →
+    oneOfOkAll C ⟨true, gm⟩ ts r = true → validateAny C (genList ⟨true, gm⟩ ts) (encode r) = true
+  | [], _, _, hc, _, _ => by rw [conformsAny.eq_def] at hc; cases hc
+  | t :: rest, r, hw, hc, hs, h1 => by
+    rw [wfTys.eq_def] at hw
+    rw [conformsAny.eq_def] at hc
+    rw [oneOfOkAll.eq_def] at h1
+    simp only [Bool.and_eq_true] at hw h1
+    simp only [Bool.or_eq_true] at hc
+    rw [genList.eq_def, validateAny.eq_def]
+    simp only [validate_obj, Bool.or_eq_true]
+    rcases hc with hc | hc
+    · left; exact val_gen t r hw.1 hc hs h1.1 _ (SibAgree.refl _)
+    · right; exact val_any rest r hw.2 hc hs h1.2
+theorem val_fields (o : Opts) : (fs : List Fld) → (kvs : List (String × PV)) → wfFields fs = true →
+    conformsFields R fs kvs = true → safeInst kvs = true → oneOfOkFields C ⟨true, gm⟩ fs kvs = true →
+    validateProps C (genFields ⟨true, gm⟩ o fs) (encodeInst kvs) = true
+  | [], _, _, _, _, _ => by rw [genFields.eq_def, validateProps.eq_def]
+  | .mk m ty :: rest, kvs, hw, hc, hs, h1 => by
+    rw [wfFields.eq_def] at hw
+    rw [conformsFields.eq_def] at hc
+    rw [oneOfOkFields.eq_def] at h1
+    simp only [Bool.and_eq_true] at hw hc h1
+    have ih := val_fields o rest kvs hw.2 hc.2 hs h1.2
+    rw [genFields.eq_def]
+    by_cases hv : fieldVisible ⟨true, gm⟩ o m = true
+    · simp only [hv, if_true]
+      rw [validateProps.eq_def]
+      simp only [Bool.and_eq_true]
+      refine ⟨?_, ih⟩
+      rw [lookup_encodeInst]
+      cases hl : kvs.lookup m.name with
+      | none => rfl
+      | some v =>
+        simp only [Option.map_some]
+        have hcv : conforms R ty v = true := by have := hc.1; simp only [hl] at this; exact this
+        have h1v : oneOfOk C ⟨true, gm⟩ ty v = true := by have := h1.1; simp only [hl] at this; exact this
+        have hsv := safeInst_mem hs (m.name, v) (lookup_mem m.name kvs v hl)
+        rw [validate_obj, validateKws_append, val_fieldExtras, Bool.and_true]
+        exact val_gen ty v hw.1.2 hcv hsv h1v _
+          (SibAgree.append_right _ _ (fun k hk => lookup_fieldExtras_sib m k hk))
+    · simp only [hv]
+      exact ih
+end
+end outputs
+
+/-! Full statement (what the property asks; false of the code as it is, see the two witnesses below):
+
+  `∀ R C gm t r, RxLaws R → C.search = R.search → wfTy t → conforms R t r →
+      validate C (generate ⟨true, gm⟩ t) (encode r) = true`
+
+`conforms R t r` is what a successful parse of `t` promises about its result (the conclusion of C01/C05,
+checked on every value the real parser returns in the correspondence run); `encode` is the JSON encoder;
+`validate` is the independent draft 2020-12 validator of `Utv/Model/JsonSchema.lean`. -/
+
+/-- `C13_outputs_validate`, outside the two known defects: every value a successful parse may publish validates
+against the generated output document — all declarations, all class modes, all generator modes, unbounded nesting. -/
+theorem C13_outputs_validate_partial (R : Rx) (L : RxLaws R) (C : Ctx) (hC : C.search = R.search) (gm : Option Char)
+    (t : Ty) (r : PV) (hw : wfTy t = true) (hc : conforms R t r = true)
+    (hd : KnownDefect.unsafeDecimal r = false) (ho : KnownDefect.oneOfOverlap C ⟨true, gm⟩ t r = false) :
+    validate C (generate ⟨true, gm⟩ t) (encode r) = true := by
+  unfold generate
+  rw [validate_obj]
+  refine val_gen R L C hC gm t r hw hc ?_ ?_ _ (SibAgree.refl _)
+  · simpa [KnownDefect.unsafeDecimal] using hd
+  · simpa [KnownDefect.oneOfOverlap] using ho
+
+/-- a trivial regex oracle (everything matches): satisfies the laws, so the hypotheses are not vacuous -/
+def Rx.top : Rx := ⟨fun _ _ => true, fun _ _ => true⟩
+theorem Rx.top_laws : RxLaws Rx.top := ⟨fun _ _ _ => rfl, fun _ => rfl, fun _ => rfl⟩
+def Ctx.top : Ctx := ⟨Rx.top.search, fun _ _ => false⟩
+
+/-- known finding `decimal-unsafe-string`: `Decimal('1E+20')` conforms to `Decimal`, is published as the string
+"1E+20" (encode.py:142-143), and the document says `{"type": "number"}` -/
+theorem C13_unsafe_decimal_witness :
+    ∃ t r, wfTy t = true ∧ conforms Rx.top t r = true ∧ KnownDefect.unsafeDecimal r = true ∧
+      validate Ctx.top (generate ⟨true, none⟩ t) (encode r) = false :=
+  ⟨.plain .decimal, .dec ⟨100000000000000000000, 0⟩ "1E+20", by decide, by decide, by decide, by decide⟩
+
+def lowerStr : Ty := .scalar .str ⟨none, none⟩ [("regex", .str "[a-z]+")]
+def len2Str : Ty := .scalar .str ⟨none, none⟩ [("length", .num ⟨2, 0⟩)]
+
+/-- known finding `oneof-weaker-branch`: `(A ^ B)("abc")` with `A = str(regex='[a-z]+')`, `B = str(length=2)`
+returns "abc" (only `A`'s parser accepts), but `B`'s schema `{"type": "string", "length": 2}` has no assertion for
+`length`, so both `oneOf` branches accept "abc" and the document rejects the parser's own output -/
+theorem C13_oneof_overlap_witness :
+    ∃ t r, wfTy t = true ∧ conforms Rx.top t r = true ∧ KnownDefect.oneOfOverlap Ctx.top ⟨true, none⟩ t r = true ∧
+      validate Ctx.top (generate ⟨true, none⟩ t) (encode r) = false :=
+  ⟨.logic .oneOf [lowerStr, len2Str], .str "abc", by decide, by decide, by decide, by decide⟩
+
+def sampleClass : Ty :=
+  .data ⟨"S", { mode := some 'r', addition := .reject, ignoreRequired := false, noDefault := false, deferDefault := false }⟩
+    [.mk { witnessField with mode := none, required := .always } (.scalar .int ⟨none, none⟩ [("gt", .num ⟨0, 0⟩)]),
+     .mk { witnessField with name := "b", attname := "b", mode := none, required := .never, hasDefault := true }
+        (.seq .list ⟨none, none⟩ [("max_length", .num ⟨2, 0⟩)] (.logic .anyOf [.plain .str, .plain .null]))]
+    .any
+
+def sampleValue : PV := .inst [("a", .int 3), ("b", .list [.str "x", .none])]
+
+/-- the hypotheses of `C13_outputs_validate_partial` are satisfiable by a nested declaration (and the conclusion holds there) -/
+example : wfTy sampleClass = true ∧ conforms Rx.top sampleClass sampleValue = true ∧
+    KnownDefect.unsafeDecimal sampleValue = false ∧
+    KnownDefect.oneOfOverlap Ctx.top ⟨true, none⟩ sampleClass sampleValue = false ∧
+    validate Ctx.top (generate ⟨true, none⟩ sampleClass) (encode sampleValue) = true := by decide
+
+/-- … and the document is not trivially permissive: it rejects a value that breaks the field's constraint -/
+example : validate Ctx.top (generate ⟨true, none⟩ sampleClass) (encode (.inst [("a", .int 0), ("b", .list [])])) = false := by
+  decide
 
 end Utv.C13
